@@ -10,20 +10,20 @@ namespace GrpcModel.XdsAuth.Spec
 
 structure WG where
   holds : Option String := none   -- content of the last ResourceChanged, unless a ResourceError came after it
-  nack : Bool := false            -- a NACK was reported since the last ResourceChanged
+  nack : Option String := none    -- error of the last NACK reported since the last ResourceChanged
 deriving DecidableEq, Repr, Inhabited
 
 def WG.apply (g : WG) : CbKind → WG
-  | .changed c => { holds := some c, nack := false }
-  | .resErr (.nack _) => { holds := none, nack := true }
+  | .changed c => { holds := some c, nack := none }
+  | .resErr (.nack t) => { holds := none, nack := some t }
   | .resErr _ => { g with holds := none }
-  | .ambErr (.nack _) => { g with nack := true }
+  | .ambErr (.nack t) => { g with nack := some t }
   | .ambErr _ => g
 
 /-- the callback the property forbids: ResourceChanged with the content the watcher already holds,
     without a NACK in between -/
 def WG.dup (g : WG) : CbKind → Bool
-  | .changed c => g.holds == some c && !g.nack
+  | .changed c => g.holds == some c && g.nack.isNone
   | _ => false
 
 /-- no forbidden callback in a sequence delivered to one watcher -/
